@@ -542,3 +542,52 @@ def expand_phi(defs, e, depth=0, seen=None):
                 return ("alts", alts)
         return x
     return map_expr(e, f)
+
+
+
+def push_loop(b):
+    """the map().collect() written as a loop: `let mut v = Vec::new()/with_capacity(..); for x in SRC { v.push(E(x)); } v` with v returned.
+    Returns (src expression of the iterated value, the `next` call expression (the round's item is ('field', ('downcast', next, 'Some'), '0')), pushed value expression)
+    or None.  Conditions: exactly one loop, left only when the iterator is exhausted; exactly one push, inside the loop, into the vector that is returned."""
+    calls, d = all_call_exprs(b)
+    pushes = [(bb, t, e) for bb, t, ci, e in calls if e[0] == "call" and last(e[2]) == "push" and "Vec" in e[1]]
+    nexts = [(bb, t, e) for bb, t, ci, e in calls if e[0] == "call" and last(e[2]) == "next" and "d:ForLoop" in (t.get("exp") or [])]
+    loops = b.natural_loops()
+    if len(pushes) != 1 or len(nexts) != 1 or len(loops) != 1:
+        return None
+    head, blocks = next(iter(loops.items()))
+    exits = set()
+    for bb in blocks:
+        for s_ in b.succs(bb):
+            if s_ not in blocks and not (b.blocks[s_]["term"]["k"] == "unreachable" and not b.blocks[s_]["stmts"]):
+                exits.add((bb, s_))
+    if len(exits) != 1 or pushes[0][0] not in blocks or nexts[0][0] not in blocks:
+        return None
+    bbp, tp, ep = pushes[0]
+    recv_l = None
+    a0 = tp["args"][0]
+    if a0["k"] in ("move", "copy") and not a0["pl"]["p"]:
+        for _, _, s_ in b.statements():
+            if s_["k"] == "assign" and s_["pl"]["l"] == a0["pl"]["l"] and not s_["pl"]["p"] and s_["rv"]["k"] == "ref" and not s_["rv"]["pl"]["p"]:
+                recv_l = s_["rv"]["pl"]["l"]
+    # the vector reaches the return place through moves only (directly, or through the return place of an inlined helper)
+    aliases = {recv_l}
+    changed = recv_l is not None
+    while changed:
+        changed = False
+        for _, _, s_ in b.statements():
+            if (s_["k"] == "assign" and not s_["pl"]["p"] and s_["rv"]["k"] == "use" and s_["rv"]["o"]["k"] in ("move", "copy")
+                    and not s_["rv"]["o"]["pl"]["p"] and s_["rv"]["o"]["pl"]["l"] in aliases and s_["pl"]["l"] not in aliases):
+                aliases.add(s_["pl"]["l"])
+                changed = True
+    if recv_l is None or 0 not in aliases:
+        return None
+    ne = nexts[0][2]
+    src = ne[3][0] if ne[3] else None
+    while src is not None and src[0] == "call" and last(src[2]) in ("into_iter", "iter") and src[3]:
+        src = src[3][0]
+    # every element is visited: no adaptor between the collection and the loop (skip / take / filter / rev / zip ... would drop or reorder elements)
+    if src is None or (src[0] == "call" and ("iter::" in sg(src[2]) or last(src[2]) in ("skip", "take", "step_by", "filter", "filter_map", "rev", "zip", "chain", "skip_while",
+                                                                                      "take_while", "enumerate", "map", "peekable", "fuse", "cycle"))):
+        return None
+    return src, ne, ep[3][1]
